@@ -7,7 +7,7 @@ use crate::json::Json;
 
 pub fn meta(_ctx: &Ctx) -> Meta {
     Meta {
-        rule: "every shape (c,h,w) in {1..4}^3 plus (1,1,7),(5,1,2),(2,6,1); every ordered 3-D->3-D pair; vector(n)<->3-D for n in 0..=64 against every shape; seven large shapes (1024..3072 elements, tall / wide / square) against each other and their vectors; ops flatten/get_flat/get_triple/reshape and there-and-back; every case with three kinds of contents: 0,1,2,.. (pairwise distinct); zeros and subnormal numbers only; a cycle through -0, subnormals, 1e-30, +-1e-5, 1+-ulp, +-MAX, +-inf and NaN - compared as bit patterns. Non-trivial = a case with >=2 elements whose target nesting differs from the source nesting".into(),
+        rule: "every shape (c,h,w) in {1..4}^3 plus (1,1,7),(5,1,2),(2,6,1); every ordered 3-D->3-D pair; vector(n)<->3-D for n in 0..=64 against every shape; seven large shapes (1024..3072 elements, tall / wide / square) against each other and their vectors; ops flatten/get_flat/get_triple/reshape and there-and-back (get_triple of a vector as a 3-D shape of another count must be refused like reshape); every case with three kinds of contents: 0,1,2,.. (pairwise distinct); zeros and subnormal numbers only; a cycle through -0, subnormals, 1e-30, +-1e-5, 1+-ulp, +-MAX, +-inf and NaN - compared as bit patterns. Non-trivial = a case with >=2 elements whose target nesting differs from the source nesting".into(),
         bound: "extents <= 4 (thorough 5) plus elongated and large shapes, vector lengths <= 64 (thorough 128); complete within the bound".into(),
         exhaustive: true,
         assumptions: vec!["vector->vector reshape and get_triple are only exercised with equal counts (the refusal clause names vector<->3-D and 3-D<->3-D)".into()],
@@ -86,6 +86,18 @@ pub fn check(case: &Kv, rep: &mut Report) {
                 format!("reshape {} -> {} was not refused; result shape {:?}", from.name(), to.name(), t.shape),
                 case,
             );
+        }
+        // reading a vector as a 3-D shape of another element count must be refused too (it would drop or invent elements)
+        if let (Dims::Flat(_), Dims::Chw(..)) = (from, to) {
+            rep.transitions += 1;
+            if let Ok(d) = guard(|| src.get_triple(&lib_shape(to))) {
+                let got: usize = d.iter().map(|c| c.iter().map(|r| r.len()).sum::<usize>()).sum();
+                rep.violate(
+                    "C14 get_triple accepts unequal counts",
+                    format!("get_triple of {} as {} was not refused; {} of {} elements returned", from.name(), to.name(), got, from.count()),
+                    case,
+                );
+            }
         }
         return;
     }
